@@ -17,8 +17,9 @@ import (
 // C21: the staked-by-power index, the per-chain index and the unstaking queue agree exactly with the node records.
 
 func c21Knobs() knobs {
-	return knobs{eras: eraPastOnly, minBlocks: 14, maxBlocks: 34, wStake: 3, wEdit: 6, wUnstake: 3, wUnjail: 4, wParam: 1, wNoise: 1, maxTxs: 4,
-		pEvidence: 20, pBurn: 25, pReward: 0, pVictimAbsent: 85, params: []string{"pos/MaxValidators", "pos/StakeMinimum", "pos/MaxJailedBlocks"}, bigSlash: true}
+	return knobs{eras: eraPastOnly, minBlocks: 16, maxBlocks: 34, wStake: 3, wEdit: 6, wUnstake: 3, wUnjail: 4, wParam: 1, wNoise: 1, maxTxs: 4,
+		pEvidence: 20, pBurn: 25, pReward: 0, pVictimAbsent: 85, params: []string{"pos/MaxValidators", "pos/StakeMinimum", "pos/MaxJailedBlocks"}, bigSlash: true,
+		slashDT: []int{1, 1, 25, 100}, stakeMins: []int64{1_000_000, 1_000_000, 15_000_000_000}, pUnjailNearDeadline: 50}
 }
 
 func setDiff(a, b map[string]bool) (onlyA, onlyB []string) {
@@ -143,12 +144,12 @@ func checkIndexes(c *harness.Case, v *posview.View, where string) bool {
 
 func TestC21(t *testing.T) {
 	harness.Check(t, "C21",
-		"real app in the chain simulator, 14-34 generated blocks per history (director biased to edit-stakes that change stake and/or chains, also after slashes; "+
+		"real app in the chain simulator, 16-34 generated blocks per history (director biased to edit-stakes that change stake and/or chains, also after slashes; "+
 			"downtime slash + jail of victim validators, double-sign evidence, challenge burns inside blocks, unjail around JailedUntil, begin-unstake, forced unstake, maturity); "+
 			"oracle after every commit from RAW prefix scans: staked-set index == {(tokens/10^6, addr): Staked and not jailed} with key address == value address, "+
 			"per-chain index == {(chain, addr): Staked, chain declared}, unstaking queue == {(completion time, addr): Unstaking} as sets per time, no entry without record. "+
 			"non-trivial = history with an edit-stake (stake or chains changed) or a slash on a node that was slashed, jailed or edited earlier in the same history",
-		map[string]float64{"edit-after-slash": 0.2, "slash-after-edit-or-slash": 0.3, "jail": 0.5, "unjail": 0.1, "chains-edited": 0.4, "slash-while-unstaking": 0.05,
+		map[string]float64{"edit-after-slash": 0.2, "slash-after-edit-or-slash": 0.3, "jail": 0.5, "unjail": 0.12, "chains-edited": 0.4, "slash-while-unstaking": 0.05,
 			"jail-while-waiting-or-unstaking": 0.05, "unstake-complete": 0.4},
 		func(rt *rapid.T, c *harness.Case) {
 			d := newDirector(rt, c, c21Knobs())
